@@ -4,6 +4,7 @@ package props
 
 import (
 	"fmt"
+	"strings"
 	"testing"
 
 	"github.com/runreveal/pql"
@@ -264,8 +265,21 @@ func plant(rt *rapid.T, g *gen.G, p *gen.Program, kind string) (desc string, pla
 		if !found {
 			return "", "", false
 		}
-		s.set(&gen.QIdent{Parts: []gen.Ident{{Name: side}, {Name: "c"}}})
-		return side + " outside a join condition", place(s), true
+		// every shape of reference: leading qualifier, bare, trailing, middle part
+		shape := rapid.SampledFrom([]string{"side.c", "side", "c.side", "t.side.c"}).Draw(rt, "sideshape")
+		var parts []gen.Ident
+		switch shape {
+		case "side.c":
+			parts = []gen.Ident{{Name: side}, {Name: "c"}}
+		case "side":
+			parts = []gen.Ident{{Name: side}}
+		case "c.side":
+			parts = []gen.Ident{{Name: "c"}, {Name: side}}
+		default:
+			parts = []gen.Ident{{Name: "t"}, {Name: side}, {Name: "c"}}
+		}
+		s.set(&gen.QIdent{Parts: parts})
+		return side + " outside a join condition (written as " + strings.ReplaceAll(shape, "side", side) + ")", place(s), true
 	case "join-kind":
 		var joins []*gen.Join
 		gen.WalkTabular(query, func(_ *gen.Tabular, op gen.Op) {
